@@ -195,7 +195,12 @@ class SimConn:
         if self.on_write is not None:
             self.on_write(src, data)
         if self.side_closed[dst] or self.dir_dead[src]:
-            return   # the other end is gone: bytes vanish (a real peer would answer RST)
+            # the other end is gone: these bytes vanish and the peer's stack answers RST, so the *next* write on
+            # this socket fails
+            me = self.ends[src]
+            if isinstance(me, MemTransport) and me.fail_writes is None and self.side_closed[dst]:
+                me.fail_writes = ConnectionResetError(104, 'Connection reset by peer')
+            return
         chunks = self.segment(data) if self.segment else [data]
         world = self.net.world
         if self.coalesce and not self.segment:
@@ -256,16 +261,25 @@ class SimConn:
                     data = data[:max(room, 0)]
                     if data:
                         self._feed(end, dst, data)
-                    self._fault(end, dst, cut[1])
+                    self._cut(end, dst, cut[1])
                     return
             self._feed(end, dst, data)
             cut = self.cut_after[dst]
             if cut is not None and self.bytes_delivered[dst] >= cut[0]:
-                self._fault(end, dst, cut[1])
+                self._cut(end, dst, cut[1])
         elif kind == 'eof':
             self._fault(end, dst, 'eof')
         else:
             self._fault(end, dst, 'reset')
+
+    def _cut(self, end, dst, kind):
+        """the connection breaks at this byte: a reset is seen by both ends, an EOF only by the receiver"""
+        self.cut_after[dst] = None
+        self._fault(end, dst, kind)
+        if kind == 'reset':
+            other = self.ends[1 - dst]
+            if other is not None and not self.side_closed[1 - dst]:
+                self._fault(other, 1 - dst, 'reset')
 
     def _feed(self, end, dst, data):
         self.bytes_delivered[dst] += len(data)
